@@ -42,16 +42,22 @@ Definition two64 : N := 18446744073709551616.
 Definition bias (a : N) : N := (a + two63) mod two64.
 Definition slt (a b : N) : bool := bias a <? bias b.
 
+(* one step along a variable-density buffer: skip a complete length-prefixed sample
+   (4-byte little-endian length, then that many bytes); None if none is left *)
+Definition chain_step (bs : list N) : option (list N) :=
+  if lenN bs <? 4 then None
+  else let l := decLE (firstn 4 bs) in
+       let rest := skipn 4 bs in
+       if lenN rest <? l then None else Some (skipn (N.to_nat l) rest).
+
 (* Series.Len for variable-density types: number of complete length-prefixed samples *)
 Fixpoint varcount (fuel : nat) (bs : list N) : N :=
   match fuel with
   | O => 0
-  | S f =>
-      if lenN bs <? 4 then 0
-      else let l := decLE (firstn 4 bs) in
-           let rest := skipn 4 bs in
-           if lenN rest <? l then 0
-           else 1 + varcount f (skipn (N.to_nat l) rest)
+  | S f => match chain_step bs with
+           | None => 0
+           | Some rest => 1 + varcount f rest
+           end
   end.
 
 (* Series.Len(); None = the Go code panics ("undefined density") *)
@@ -200,14 +206,15 @@ Definition compute_flags (st : cstate) (ms : frame) : flags * (N * N * N * N) :=
        (slen s0, s_ts s0, s_te s0, s_al s0))
   end.
 
-Definition enc_series (fl : flags) (ks : N * series) : list N :=
-  let s := snd ks in
-  (if f_all fl then [] else enc32 (fst ks)) ++
+Definition enc_key (fl : flags) (k : N) : list N := if f_all fl then [] else enc32 k.
+Definition enc_body (fl : flags) (s : series) : list N :=
   (if f_eqlens fl then []
    else enc32 (if is_variable (s_dt s) then lenN (s_data s) else slen s)) ++
   s_data s ++
   (if f_eqtr fl then [] else enc64 (s_ts s) ++ enc64 (s_te s)) ++
   (if f_eqal fl then [] else enc64 (s_al s)).
+Definition enc_series (fl : flags) (ks : N * series) : list N :=
+  enc_key fl (fst ks) ++ enc_body fl (snd ks).
 
 Definition enc_header (fl : flags) (seq : N) (refs : N * N * N * N) : list N :=
   let '(dl, ts, te, al) := refs in
@@ -430,3 +437,35 @@ Definition chan_data (k : N) (f : frame) : list N :=
   concat (map (fun ks => s_data (snd ks)) (filter (fun ks => fst ks =? k) f)).
 
 Definition sum_allocs (l : list N) : N := fold_right N.add 0 l.
+
+(* ------------------------------------------------------------------ validity *)
+(* "a valid frame over the agreed channel set": what Series.Validate checks (fixed types: the
+   buffer is a whole number of samples; variable types: the length-prefix chain consumes the
+   buffer exactly), the codec's own validation (known key, matching data type), and the sizes
+   the uint32 wire fields can carry. *)
+Fixpoint var_wf (fuel : nat) (bs : list N) : bool :=
+  match bs with
+  | [] => true
+  | _ => match fuel with
+         | O => false
+         | S f => match chain_step bs with
+                  | None => false
+                  | Some rest => var_wf f rest
+                  end
+         end
+  end.
+Definition data_wf (dt : N) (data : list N) : bool :=
+  if is_variable dt then var_wf (length data) data
+  else negb (density dt =? 0) && (lenN data mod density dt =? 0).
+Definition series_valid (s : series) : bool :=
+  data_wf (s_dt s) (s_data s) && (s_ts s <? two64) && (s_te s <? two64) && (s_al s <? two64).
+(* every data type of the state is a real one, every key fits the wire *)
+Definition state_known (st : cstate) : bool :=
+  forallb (fun p => negb (dt_undefined (snd p))) (st_dts st) &&
+  forallb (fun k => k <? two32) (st_keys st).
+Definition total_size (f : frame) : N := fold_right (fun ks acc => lenN (s_data (snd ks)) + acc) 0 f.
+Definition frame_valid (st : cstate) (f : frame) : bool :=
+  state_known st &&
+  forallb (fun ks => series_valid (snd ks)) (keep st f) &&
+  match validate st (keep st f) with None => true | Some _ => false end &&
+  (total_size (keep st f) <? two32).
